@@ -15,6 +15,12 @@ one() {
 }
 export -f one
 printf '%s\n' "${dirs[@]}" | xargs -P 3 -I{} bash -c 'one {}' | sort > seeded/RECHECK_RESULTS.txt.new
+if [ $# -gt 0 ] && [ -f seeded/RECHECK_RESULTS.txt ]; then
+  # a subset: replace the lines of these seeds, keep the others
+  cut -d' ' -f1 seeded/RECHECK_RESULTS.txt.new > seeded/.redone
+  grep -v '^repo HEAD' seeded/RECHECK_RESULTS.txt | grep -v -w -F -f seeded/.redone >> seeded/RECHECK_RESULTS.txt.new
+  sort -o seeded/RECHECK_RESULTS.txt.new seeded/RECHECK_RESULTS.txt.new; rm -f seeded/.redone
+fi
 mv seeded/RECHECK_RESULTS.txt.new seeded/RECHECK_RESULTS.txt
 echo "repo HEAD $(git -C /repo log --format=%h -1), verif HEAD $(git log --format=%h -1)" >> seeded/RECHECK_RESULTS.txt
 grep -c CAUGHT seeded/RECHECK_RESULTS.txt
